@@ -35,6 +35,21 @@ Section C04INV.
     rewrite nth_error_app2 by (rewrite rev_length; lia). rewrite rev_length, Nat.sub_diag. reflexivity.
   Qed.
 
+  (* a phase-[1] thread_usleep that returned -1: it CONSUMED (cleared) the error_number it reports *)
+  Definition clearing (ev : event) : Prop :=
+    (exists d, ev_op ev = Some (OCore (OUsleep d))) /\ ev_k ev = [1] /\ ev_ret ev = -1.
+  (* the event reports an interrupt to its thread: a usleep returning -1 other than by the 10 ms
+     cap path, or a yield / yield_to returning a non-zero error_number *)
+  Definition reports (ev : event) : Prop :=
+    ((exists d, ev_op ev = Some (OCore (OUsleep d))) /\ ev_ret ev = -1 /\ ev_k ev <> [3]) \/
+    (ev_op ev = Some (OCore OYield) /\ ev_ret ev <> 0) \/
+    ((exists j, ev_op ev = Some (OCore (OYieldTo j))) /\ ev_k ev = [1] /\ ev_ret ev <> 0).
+
+  (* every delivery still pending for t is newer than everything t's real sleeps have consumed *)
+  Definition fresh (t : tid) (th : thread) (tr : list event) : Prop :=
+    forall e1, In e1 tr -> ev_tid e1 = t -> clearing e1 ->
+      (ev_src e1 < length tr)%nat /\ (th_err th <> 0 -> (ev_src e1 < th_esrc th)%nat).
+
   Definition usleep_exp (th : thread) (d : Z) : Z := timeout_of (th_issued th) d.
   Definition usleep_exp3 (th : thread) (d : Z) : Z := timeout_at_most (th_issued th) (usleep_exp th d) SHUTDOWN_CAP.
 
@@ -61,13 +76,23 @@ Section C04INV.
     (* a thread is inside an op only while it exists and has not died *)
     g_kstate : th_k th <> [] -> th_state th = READY \/ th_state th = RUNNING \/ th_state th = SLEEPING;
     (* past the end of its program a thread (other than the parked main thread) is in no op *)
-    g_end : t <> 0%nat -> cur_op t th = None -> th_k th = []
+    g_end : t <> 0%nat -> cur_op t th = None -> th_k th = [];
+    g_fresh : fresh t th tr
   }.
 
-  Lemma GoodT_mono t th now clock tr x : GoodT t th now clock tr -> GoodT t th now clock (x :: tr).
+  Lemma fresh_mono t th tr x : fresh t th tr -> (ev_tid x = t -> ~ clearing x) -> fresh t th (x :: tr).
   Proof.
-    intros [A B C D E F G]. constructor; auto.
-    intros H. destruct (D H) as [S|S]; [left; apply src_ok_mono; auto|right; auto].
+    intros F Hx e1 [<-|Hin] Ht Hc.
+    - exfalso. apply (Hx Ht). exact Hc.
+    - destruct (F e1 Hin Ht Hc) as (A & B). split; [simpl; lia|exact B].
+  Qed.
+
+  Lemma GoodT_mono t th now clock tr x :
+    GoodT t th now clock tr -> (ev_tid x = t -> ~ clearing x) -> GoodT t th now clock (x :: tr).
+  Proof.
+    intros [A B C D E F G H] Hx. constructor; auto.
+    - intros H0. destruct (D H0) as [S|S]; [left; apply src_ok_mono; auto|right; auto].
+    - apply fresh_mono; auto.
   Qed.
 
   (* what the theorems say about one trace event *)
@@ -106,7 +131,19 @@ Section C04INV.
     - intros H. destruct (C H) as [?|S]; auto. right. apply src_ok_mono; auto.
   Qed.
 
-  Definition TI (st : cstate) : Prop := forall ev, In ev (s_trace st) -> EvOK (s_trace st) ev.
+  (* `tr` is newest first: x :: tr means x happened after everything in tr *)
+  Fixpoint Pairs (tr : list event) : Prop :=
+    match tr with
+    | [] => True
+    | x :: r => Pairs r /\
+                (reports x -> forall e1, In e1 r -> ev_tid e1 = ev_tid x -> clearing e1 -> (ev_src e1 < ev_src x)%nat)
+    end.
+
+  Definition TI (st : cstate) : Prop :=
+    (forall ev, In ev (s_trace st) -> EvOK (s_trace st) ev) /\ Pairs (s_trace st).
+
+  Lemma TI_same (st st' : cstate) : TI st -> s_trace st' = s_trace st -> TI st'.
+  Proof. unfold TI. intros T ->. exact T. Qed.
 
   Record GI (st : cstate) : Prop := mkGI {
     gi_wf : WF st;
